@@ -42,6 +42,14 @@ def one(d, props):
         env = dict(os.environ, PYTHONPATH=wt, PYTHONHASHSEED="0")
         eq = os.path.join(d, "equiv.py")
         rc0, out0 = run([PY, eq], cwd=wt, env=env, timeout=900) if os.path.exists(eq) else (0, "")
+        # verdict of the unpatched base (only needed when the base is an older commit that still has defects repaired
+        # since: what the base already reports is not an alarm about the change)
+        base_lines = {}
+        if os.environ.get("VERIF_BASE"):
+            for p in props:
+                cenv = dict(os.environ, VERIF_REPO=wt, VERIF_EVIDENCE_DIR=os.path.join(tmp, "ev0"))
+                _rc, outb = run([os.path.join(VERIF, "check"), p], cwd=VERIF, env=cenv, timeout=1500)
+                base_lines[p] = {l.strip()[:220] for l in outb.splitlines() if l.startswith(("  rule=", "ANALYSIS-ERROR"))}
         rc, out = run(["git", "-C", wt, "apply", "--whitespace=nowarn", os.path.join(d, "patch.diff")])
         res["patch_applies"] = rc == 0
         if rc != 0:
@@ -58,6 +66,11 @@ def one(d, props):
             rcc, outc = run([os.path.join(VERIF, "check"), p], cwd=VERIF, env=cenv, timeout=1500)
             if rcc != 0:
                 roles = [l.strip()[:220] for l in outc.splitlines() if l.startswith(("  rule=", "ANALYSIS-ERROR"))]
+                roles = [l for l in roles if l not in base_lines.get(p, ())]
+                if not roles:
+                    continue
+                if rcc == 1 and not any(l.startswith("rule=") for l in roles):
+                    rcc = 2          # the only new lines are `cannot follow`
                 det[p] = {"exit": rcc, "lines": roles[:6]}
         res["alarms"] = {p: v for p, v in det.items() if v["exit"] == 1}
         res["errors"] = {p: v for p, v in det.items() if v["exit"] not in (0, 1)}
